@@ -155,6 +155,49 @@ def run_sessions(res, M, mod_json, scns, trace_module, san="plain", flags=(), in
     return fresh
 
 
+def run_sessions_events(res, M, mod_json, scns, evs, trace_module, known, constants, label=""):
+    """judge already recorded events (no re-execution): used where the execution itself is the experiment (threads)"""
+    byid = {s["id"]: s for s in scns}
+    evbyid = {}
+    for e in evs:
+        evbyid.setdefault(e["id"], []).append(e)
+    todo = scns
+    first = True
+    for rnd in range(8):
+        sub = [e for s in todo for e in evbyid.get(s["id"], [])]
+        mism, tot = lib.judge(trace_module, mod_json, todo, sub, constants=constants, invariants=["RoundTrip"])
+        mism = expand(mism)
+        if first:
+            res.states += tot["distinct"]
+            res.transitions += tot["states"]
+            res.sessions += len(scns)
+            res.events += tot["events"]
+            first = False
+        redo = set()
+        for m in mism:
+            scn = byid[m["id"]]
+            sig, f = classify(res.prop, M, scn, m, known, evbyid.get(m["id"], []))
+            if f:
+                res.known[f["id"]] = res.known.get(f["id"], 0) + 1
+                for e in evbyid[m["id"]]:
+                    if e["i"] == m["i"] and e["a"] != "Session":
+                        if f.get("continue"):
+                            e["waive"] = sorted(set(e.get("waive", [])) | {m["reason"]})
+                        else:
+                            e["kf"] = "stop"
+                redo.add(m["id"])
+            else:
+                sig["style"] = label
+                res.violations.append((sig, {"property": res.prop, "signature": sig, "module": mod_json, "scenario": scn,
+                                             "events": evbyid.get(m["id"], []), "first_unexplained_op": m["i"], "schedule": label}))
+        if not redo:
+            break
+        todo = [s for s in todo if s["id"] in redo]
+    if scns and len(res.samples) < 3:
+        s0 = scns[len(scns) // 2]
+        res.samples.append({"module": M.name, "schedule": label, "scenario": {k: s0[k] for k in ("ty", "val", "plan")}, "events": evbyid.get(s0["id"], [])[:5]})
+
+
 def finish(res, tier, seed, level, t0, rule, assumptions, exhaustive=False, extra=None):
     cov = {"states": res.states, "transitions": res.transitions,
            "traces_validated_against_impl": res.sessions, "samples": res.samples or ["(none)"],
@@ -881,6 +924,111 @@ def check_C12(tier, seed):
                    "per-type files = emitted .c/.h files that are not copies of skeleton files"])
 
 
+# ---- reentrancy (C19) --------------------------------------------------------------------------------
+def run_threads(b, M, scns, nthreads, env=None, timeout=600):
+    """the sessions are dealt round-robin to nthreads threads that start together; returns (events, process status, output)"""
+    import subprocess, tempfile, shutil
+    work = tempfile.mkdtemp(prefix="thr-", dir=lib.SCRATCH)
+    try:
+        scripts = []
+        for t in range(nthreads):
+            part = scns[t::nthreads]
+            sp = os.path.join(work, "s%d" % t)
+            open(sp, "w").write("\n".join(lib.script_for(M, part)) + "\n")
+            scripts.append(sp)
+        e = dict(os.environ)
+        e.update({"TSAN_OPTIONS": "halt_on_error=1:exitcode=66:report_signal_unsafe=0", "ASAN_OPTIONS": "detect_leaks=0"})
+        e.update(env or {})
+        try:
+            r = subprocess.run([b.driver, "--threads", os.path.join(work, "ev")] + scripts, env=e, timeout=timeout,
+                               stdout=subprocess.PIPE, stderr=subprocess.STDOUT, text=True, errors="replace")
+            rc, outp = r.returncode, r.stdout
+        except subprocess.TimeoutExpired:
+            rc, outp = -14, "timeout"
+        evs = []
+        for t in range(nthreads):
+            ep = os.path.join(work, "ev.%d" % t)
+            if os.path.exists(ep):
+                for line in open(ep, errors="replace"):
+                    try:
+                        evs.append(json.loads(line))
+                    except ValueError:
+                        pass
+        return evs, rc, outp
+    finally:
+        shutil.rmtree(work, ignore_errors=True)
+
+
+def check_C19(tier, seed):
+    t0 = time.time()
+    res = Result("C19")
+    known = lib.load_findings("C19")
+    # model level: every interleaving of small scripts is sequential per thread
+    cfg = open(os.path.join(lib.SPEC, "MC_Threads.cfg")).read()
+    rc, out, st = lib.run_tlc("MC_Threads", cfg, names=False, workers=4)
+    if rc != 0:
+        raise Infra("Threads model: " + lib.tlc_error_excerpt(out))
+    res.states += st["distinct"]
+    res.transitions += st["states"]
+    consts = ("Mod <- TheMod", "ByteExact = FALSE")
+    rng = random.Random(seed)
+    schedules = 0
+    for mi in ((1,) if tier == "quick" else (1, 2, 3)):
+        mod, scns, stg = gen_codec(mi, "thread", 2, exact=False, valcap=3 if tier == "quick" else 8, leafcap=4 if tier == "quick" else 0)
+        res.states += stg["distinct"]
+        res.transitions += stg["states"]
+        M = Module(mod)
+        for s in scns:
+            res.distinct.add(nontrivial(M, s))
+        strip = lambda e: {k: v for k, v in e.items() if k not in ("live", "allocfailed")}
+        allscns = scns
+        for san, reps in (("plain", 2 if tier == "quick" else 6), ("tsan", 2 if tier == "quick" else 6)):
+            b = lib.build_module(M, san=san)
+            if not b.ok:
+                raise Infra("build %s failed: %s" % (san, b.err))
+            # the sequential run of the same build: what every call returns when run alone.  A session in which the
+            # library dies on its own (recorded crash findings) cannot share a process and is left out.
+            seq = lib.run_driver(b, M, allscns)
+            dead = {e["id"] for e in seq if e["a"] in ("Crash", "Timeout")}
+            scns = [s for s in allscns if s["id"] not in dead]
+            seqby = {}
+            for e in seq:
+                if e["id"] not in dead:
+                    seqby.setdefault(e["id"], []).append(strip(e))
+            res.notes["sessions_left_out_because_they_crash_alone"] = len(dead)
+            for rep in range(reps):
+                n = [4, 8, 2, 6, 3, 5][rep % 6]
+                order = list(scns)
+                rng.shuffle(order)                      # another deal of sessions to threads = another family of schedules
+                evs, prc, outp = run_threads(b, M, order, n)
+                schedules += 1
+                if prc != 0:
+                    why = "data-race" if "ThreadSanitizer" in outp else ("timeout" if prc == -14 else "crash")
+                    detail = "\n".join([l for l in outp.splitlines() if "ThreadSanitizer" in l or l.lstrip().startswith(("#0", "#1", "#2", "Write of", "Previous", "Location"))][:14])
+                    sig = {"module": M.name, "a": "Threads", "reason": why, "style": "%s x%d" % (san, n)}
+                    if not any(kf["match"].get("a") == "Threads" and kf["match"].get("reason") == why and kf["match"].get("needle", "\0") in outp
+                               for kf in known if isinstance(kf["match"], dict)):
+                        res.violations.append((sig, {"property": "C19", "signature": sig, "detail": detail or outp[-1500:], "threads": n, "build": san}))
+                    continue
+                # per-thread traces are validated independently of the interleaving: sessions are self-contained
+                byid = {}
+                for e in evs:
+                    byid.setdefault(e["id"], []).append(e)
+                for sc_ in scns:                     # the same results as when run alone
+                    if [strip(e) for e in byid.get(sc_["id"], [])] != seqby.get(sc_["id"]):
+                        sig = {"module": M.name, "ty": sc_["ty"], "a": "Threads", "reason": "result-differs-from-sequential", "style": "%s x%d" % (san, n)}
+                        res.violations.append((sig, {"property": "C19", "signature": sig, "scenario": sc_, "concurrent": byid.get(sc_["id"]),
+                                                     "sequential": seqby.get(sc_["id"])}))
+                ordered = [e for s in scns for e in byid.get(s["id"], [])]
+                cev = lib.convert_events(M, scns, ordered)
+                run_sessions_events(res, M, mod, scns, cev, "Trace_Codec", known, consts, label="%s x%d" % (san, n))
+            log("C19 module %s build %s: %d schedules so far, %d violations, %.0fs" % (M.name, san, schedules, len(res.violations), time.time() - t0))
+    res.notes["schedules"] = schedules
+    return finish(res, tier, seed, "exploration", t0,
+                  "Threads.tla (every interleaving of 3 threads x 4 calls is sequential per thread; no step writes shared state) is model-checked; binding: the sessions Build, Encode(s), Decode, Compare, Check, Print, Free, Free over (type, value, syntax) are dealt to 2..8 threads that start behind a barrier, in several random deals, once in a plain and once in a ThreadSanitizer build; every thread's recorded trace is validated against Codec.tla (the sequential results) independently of the schedule; a TSan report or a crash fails the check",
+                  ASSUME_CODEC + ["absence of data races is observed on the explored schedules (ThreadSanitizer), not proved"])
+
+
 # ---- adversarial depth / length (C15) -----------------------------------------------------------------
 def check_C15(tier, seed):
     t0 = time.time()
@@ -1172,7 +1320,7 @@ def check_C10(tier, seed):
 
 
 CHECKS = {"C01": check_C01, "C02": check_C02, "C03": check_C03, "C04": check_C04, "C05": check_C05, "C06": check_C06, "C07": check_C07, "C08": check_C08, "C14": check_C14,
-          "C09": check_C09, "C10": check_C10, "C11": check_C11, "C12": check_C12, "C13": check_C13, "C15": check_C15, "C16": check_C16, "C17": check_C17, "C20": check_C20}
+          "C09": check_C09, "C10": check_C10, "C11": check_C11, "C12": check_C12, "C13": check_C13, "C15": check_C15, "C16": check_C16, "C19": check_C19, "C17": check_C17, "C20": check_C20}
 
 
 def replay(prop, path):
